@@ -168,4 +168,14 @@ def cencProt (c : Codec) (nalu : Bytes) : Nat :=
 def cencMask (c : Codec) (ns : List Bytes) : List Bool :=
   ns.flatMap fun n => List.replicate (4 + n.length - cencProt c n) false ++ List.replicate (cencProt c n) true
 
+/-- cbcs: protected length of a NAL unit: everything after the slice header of a video unit (`hdr` = bytes of the unit
+    occupied by NAL header and slice header), nothing of any other unit -/
+def cbcsProt (c : Codec) (hdr : Bytes → Option Nat) (nalu : Bytes) : Nat :=
+  if c.isVideo (c.typeOf (nalu.headD 0)) then nalu.length - (hdr nalu).getD 0 else 0
+
+/-- the mask the standard asks for under cbcs: length field, NAL header and slice header clear, the rest of a video
+    unit protected -/
+def cbcsMask (c : Codec) (hdr : Bytes → Option Nat) (ns : List Bytes) : List Bool :=
+  ns.flatMap fun n => List.replicate (4 + n.length - cbcsProt c hdr n) false ++ List.replicate (cbcsProt c hdr n) true
+
 end Mp4ff.Cenc
